@@ -176,6 +176,18 @@ def check_normal_equations(alg, rep, site, coefs, rows, rhs, what):
     return ok
 
 
+def _abs_form(cond):
+    """-c < x < c written as two comparisons is |x| < c (and its negation |x| >= c): one normal form for the division guards"""
+    mp = {}
+    for x in T.walk(cond):
+        if x[0] == "and" and len(x) == 3 and all(y[0] == "cmp" and y[1] == "Lt" for y in x[1:]):
+            a, b = x[1], x[2]
+            for lo, hi in ((a, b), (b, a)):
+                if lo[2][0] == "num" and hi[3][0] == "num" and lo[3] == hi[2] and lo[2][1] == -hi[3][1] and hi[3][1] > 0:
+                    mp[x] = ("cmp", "Lt", T.call("abs", lo[3]), hi[3])
+    return T.subst(cond, mp) if mp else cond
+
+
 def guarded_division(rep, site, outs):
     """O6: the value-returning paths carry not(|d| < TOL) for the denominator d they divide by,
     and the complementary path raises ZeroDivisionError"""
@@ -188,7 +200,7 @@ def guarded_division(rep, site, outs):
         for d in dens:
             guard = ("cmp", "Lt", T.call("abs", d), T.num(Fraction("1e-10")))
             pos_guard = ("cmp", "GtE", T.call("abs", d), T.num(Fraction("1e-10")))
-            if prop_unsat(T.land(o.cond, guard)) is True:
+            if prop_unsat(T.land(_abs_form(o.cond), guard)) is True:
                 rep.ok("R-E4-ID", site + ":div", "division by d is dominated by |d| < TOL -> ZeroDivisionError", obligation=True, sample=False)
                 continue
             rep.violation("R-E4-ID", site, "unguarded-division", "a returned coefficient divides by %s without the |d| < TOL -> ZeroDivisionError guard" % T.show(d)[:80], obligation=True)
@@ -396,7 +408,11 @@ def general(repo, rep, alg, table, quad):
             if inc == T.mul(T.sym("Y"), FX[i]):
                 r = ("y", i)
         if r is None:
-            rep.violation("R-E4-ID", site, "acc-form:" + k, "accumulator %s is not a sum of f_i(x)*f_j(x) or y*f_i(x): %s" % (k, T.show(inc)[:100]), obligation=True)
+            if any(x[0] in ("lv", "lt", "loopout") or (x[0] == "call" and isinstance(x[1], str) and x[1].startswith(".")) for x in T.walk(inc)):
+                # accumulated through a container / table-driven loop the evaluator does not resolve to one increment per sum: not read
+                rep.inconcl("R-E4-ID", site, "accumulator %s: increment not reduced to a product of basis values (%s)" % (k, T.show(inc)[:60]))
+            else:
+                rep.violation("R-E4-ID", site, "acc-form:" + k, "accumulator %s is not a sum of f_i(x)*f_j(x) or y*f_i(x): %s" % (k, T.show(inc)[:100]), obligation=True)
             return
         if inits.get(k) != T.ZERO:
             rep.violation("R-E4-ID", site, "acc-init:" + k, "accumulator %s does not start from 0" % k, obligation=True)
